@@ -15,6 +15,7 @@ import (
 	"path/filepath"
 	"sort"
 	"strings"
+	"syscall"
 	"testing"
 )
 
@@ -323,4 +324,86 @@ func TestVerifLoadBig(t *testing.T) {
 		}
 		out.Emit(map[string]interface{}{"kind": "big", "spelling": name, "bytes": len(big), "why": why})
 	}
+}
+
+// TestVerifLoadEdges: (1) "never panics on any directory tree" includes the trees that are not there -- a directory that does not
+// exist, the empty string, a regular file given as the directory: an error or nothing loaded, never a panic; (2) a corpus of
+// more files than the process may hold open at once (the soft limit is lowered around the call) loads like any other.
+func TestVerifLoadEdges(t *testing.T) {
+	out := vuOpenOut("VERIF_OUT")
+	defer out.Close()
+	root, err := ioutil.TempDir("", "verif-loadedges-")
+	if err != nil {
+		t.Fatal(err)
+	}
+	defer os.RemoveAll(root)
+	ioutil.WriteFile(filepath.Join(root, "plainfile.txt"), []byte("some words in a file that is not a directory\n"), 0644)
+	os.MkdirAll(filepath.Join(root, "emptydir"), 0755)
+	for name, dir := range map[string]string{"missing": filepath.Join(root, "nowhere"), "empty-string": "", "file-as-directory": filepath.Join(root, "plainfile.txt"),
+		"missing-below-a-file": filepath.Join(root, "plainfile.txt", "x"), "empty-directory": filepath.Join(root, "emptydir"), "missing-with-separator": filepath.Join(root, "nowhere") + string(os.PathSeparator)} {
+		c := NewClassifier(0.8)
+		c.AddContent("License", "Before", "license.txt", []byte("a document that was there before the load and stays there after it\n"))
+		why := ""
+		func() {
+			defer func() {
+				if p := recover(); p != nil {
+					why = fmt.Sprintf("panic: %v", p)
+				}
+			}()
+			c.LoadLicenses(dir) // an error is fine
+		}()
+		if why == "" && vuJS(ldKeys(c)) != vuJS([]string{"License/Before/license.txt"}) {
+			why = fmt.Sprintf("corpus keys %v after loading a directory that holds nothing", ldKeys(c))
+		}
+		out.Emit(map[string]interface{}{"kind": "edge", "spelling": name, "why": why})
+	}
+	// (2)
+	corp := filepath.Join(root, "many")
+	ref := NewClassifier(0.8)
+	const nfiles = 300
+	var texts []string
+	for i := 0; i < nfiles; i++ {
+		txt := fmt.Sprintf("license number %d grants holder%d the right to use module%d under condition%d and nothing else whatsoever\n", i, i, i, i)
+		texts = append(texts, txt)
+		d := filepath.Join(corp, "License", fmt.Sprintf("L%03d", i))
+		os.MkdirAll(d, 0755)
+		ioutil.WriteFile(filepath.Join(d, "license.txt"), []byte(txt), 0644)
+		ref.AddContent("License", fmt.Sprintf("L%03d", i), "license.txt", []byte(txt))
+	}
+	var lim syscall.Rlimit
+	why := ""
+	if err := syscall.Getrlimit(syscall.RLIMIT_NOFILE, &lim); err != nil {
+		why = "skipped: " + err.Error()
+	} else {
+		low := lim
+		low.Cur = 128
+		if low.Cur > lim.Max {
+			low.Cur = lim.Max
+		}
+		syscall.Setrlimit(syscall.RLIMIT_NOFILE, &low)
+		c := NewClassifier(0.8)
+		var lerr error
+		func() {
+			defer func() {
+				if p := recover(); p != nil {
+					why = fmt.Sprintf("panic: %v", p)
+				}
+			}()
+			lerr = c.LoadLicenses(corp)
+		}()
+		syscall.Setrlimit(syscall.RLIMIT_NOFILE, &lim)
+		if why == "" && lerr != nil {
+			why = fmt.Sprintf("LoadLicenses of %d small files with %d descriptors allowed: %v", nfiles, low.Cur, lerr)
+		}
+		if why == "" && vuJS(ldKeys(c)) != vuJS(ldKeys(ref)) {
+			why = fmt.Sprintf("%d documents loaded, %d files", len(ldKeys(c)), nfiles)
+		}
+		for _, i := range []int{0, 127, 128, 129, nfiles - 1} {
+			in := []byte("zzqxv qqzzk\n" + texts[i] + "xqzvv\n")
+			if a, b := ldProject(c.Match(in)), ldProject(ref.Match(in)); a != b && why == "" {
+				why = fmt.Sprintf("Match on file %d's text differs: loaded %s, AddContent %s", i, a, b)
+			}
+		}
+	}
+	out.Emit(map[string]interface{}{"kind": "edge", "spelling": "more-files-than-descriptors", "why": why})
 }
